@@ -16,7 +16,7 @@ def _all(f):
     return True
 
 
-prop("C03", ["take_range", "sort_take"],
+prop("C03", ["take_range", "sort_take", "limit_clause"],
      not_covered="which sort is in effect (Flattener.sort/sort_undone, infer_sorts, alias_last_sorting): recursive folds over "
                  "PL/PQ trees with HashMap state; sort changes are NOT detected by this check")
 
@@ -36,7 +36,8 @@ claim("C03",
       "PARTIAL (the take half). Proved for all inputs, unbounded number of takes: range_of_ranges composes any list of validated "
       "take ranges into exactly the position set that applying them one after another denotes (TR1), the OFFSET/LIMIT numbers "
       "computed in translate_select_pipeline select exactly that set (TR2), the ORDER BY emitted in front of a LIMIT is the sort embedded in the "
-      "take when there is one and the inherited sorting otherwise (sort_take ST1-3), empty selections are encoded as LIMIT 0 and never as a "
+      "take when there is one and the inherited sorting otherwise (sort_take ST1-3), the emitted OFFSET / LIMIT / FETCH carry exactly those numbers and the "
+      "ORDER BY list is kept in order (limit_clause LC2, LC2l, LC5), empty selections are encoded as LIMIT 0 and never as a "
       "negative limit (TR3o), no arithmetic panic (checked composition), and validate_take_range accepts exactly positive integer "
       "bounds (TR4). NOT proved: which sort is in effect / sort persistence - the end-to-end sentence of C03 is not what is proved.",
       "Trusted: unpack_as_int_literal / bound_as_int by contract (enum_as_inner accessors), Option::transpose/zip and Ord::min by "
@@ -197,7 +198,7 @@ def _safety(name):
 
 
 _ALL_UNITS = ["take_range", "sort_take", "split_order", "window_frame", "dialect_select", "ident_quote", "ids_names", "toposort", "rq_tables",
-              "select_shape", "span_units", "sql_prec", "prql_prec", "literals", "set_ops", "desugar", "resolve_guards", "lex_strings"]
+              "select_shape", "span_units", "sql_prec", "prql_prec", "literals", "set_ops", "desugar", "resolve_guards", "lex_strings", "limit_clause"]
 prop("C12", _ALL_UNITS, select={u: _safety for u in _ALL_UNITS},
      not_covered="every function that is not under contract (~150 unwrap/expect sites, todo!() in type_intersection, panic!(cannot find cid) in lookup_cid), "
                  "recursion depth, chumsky, time bounds")
@@ -223,14 +224,16 @@ claim("C08",
       "content of escaped strings beyond one escape.",
       "sqlparser's Display (quote doubling) is trusted; str::parse and format! are uninterpreted; date/time/interval arms are not under contract.")
 
-prop("C07", ["set_ops", "sql_prec"], select={"sql_prec": lambda n: n.split(".", 1)[1].startswith("NP4.std_neg") or n.endswith(".safety")},
+prop("C07", ["set_ops", "limit_clause", "literals", "sql_prec"], select={"literals": lambda n: n.split(".", 1)[1] in ("EI1", "expr_of_i64.safety"), "sql_prec": lambda n: n.split(".", 1)[1].startswith("NP4.std_neg") or n.endswith(".safety")},
      not_covered="scope of every table / column reference, per-dialect grammar, empty projections, relation alias uniqueness (assign_names), "
-                 "`take n..` on SQLite emits OFFSET without LIMIT (observed defect, not under contract)")
+                 "which dialects besides SQLite have no bare OFFSET (MySQL, BigQuery: the handler table is assumed, not executable here)")
 claim("C07",
       "PARTIAL (necessary conditions only). Proved on the real code: EXCEPT ALL is created only for dialects that have it - otherwise a compile error "
       "(unknown columns) or the anti-join fallback (EX1-3); the WITH clause is RECURSIVE iff at least one of its CTEs is a loop CTE, wherever it stands "
       "(WR1, loop invariant, any number of CTEs) and carries every CTE (WR2); the set quantifier is ALL iff duplicates are kept and DISTINCT is written "
-      "only where the dialect accepts it (SQ1-2); nested unary minus never produces the comment token `--` (sql_prec NP4.std_neg rows). The sentence "
+      "only where the dialect accepts it (SQ1-2); the LIMIT / OFFSET / FETCH clause is one the dialect's grammar has: FETCH never without OFFSET and ORDER BY and "
+      "never together with LIMIT (LC1, LC1f), a dialect without bare OFFSET gets a LIMIT meaning `no limit` whenever it gets an OFFSET (LC3, LC4), row counts are "
+      "written as plain decimal digits (literals EI1); nested unary minus never produces the comment token `--` (sql_prec NP4.std_neg rows). The sentence "
       "'every accepted program compiles to valid SQL of the dialect' is NOT what is proved.",
       "dialect flags and translate_cte are parameters / externals of the slices; the rest of except(), translate_query and "
       "translate_set_ops_pipeline is dropped.")
